@@ -17,7 +17,8 @@
 (*  config/docker.go:dockerParse        -> DockerHosts                     *)
 (*  config/docker.go:dockerAuthToHost   -> DockerAuthHost                  *)
 (*  config/credhelper.go:list           -> DockerStoreHost                 *)
-(*  regclient.go:New                    -> Init (Docker Hub injection)     *)
+(*  regclient.go:New                    -> NewState / Init, FinalHosts     *)
+(*                                         (Docker Hub injection)          *)
 (*  regclient.go:WithConfigHost(s),                                        *)
 (*  WithConfigHostDefault,                                                 *)
 (*  WithDockerCredsFile                 -> StepSrc (one arm per option),   *)
@@ -47,8 +48,9 @@
 (*                 then overrides a hostname configured earlier)           *)
 (*   "cloneTransport" reghttp.getHost clones a transport given by the user  *)
 (*                 before it stores a host's TLS settings in it            *)
-(*   "legacyAlias" parseName and hostLoad know index.docker.io as a Docker *)
-(*                 Hub alias (types/ref already maps it to docker.io)      *)
+(*   "legacyAlias" parseName, hostLoad and the regctl loader know           *)
+(*                 index.docker.io as a Docker Hub alias (types/ref        *)
+(*                 already maps it to docker.io)                           *)
 (*                                                                         *)
 (* Deliberate deviations: see HostConfDefs (finite name universe, string   *)
 (* functions as tables, abstract APIOpts / Mirrors / durations); the order *)
@@ -288,7 +290,7 @@ RegctlLoadHost(k, h) ==
   LET h1 == [h EXCEPT !.name = IF h.name = "" THEN k ELSE h.name,
                       !.hostname = IF h.hostname = "" THEN k ELSE h.hostname,
                       !.tls = IF h.tls = "" THEN "enabled" ELSE h.tls]
-  IN IF k \in Docker3
+  IN IF k \in Docker3 \cup (IF "legacyAlias" \in Fix THEN {DockerLegacy} ELSE {})
      THEN [h1 EXCEPT !.name = DockerName,
                      !.hostname = IF h1.hostname = k THEN DockerDNS ELSE h1.hostname,
                      !.credhost = IF h1.credhost = k THEN DockerAuth ELSE h1.credhost]
